@@ -16,7 +16,7 @@ LEVEL = 'fault_enumeration'
 RUNS = {'quick': 8000, 'thorough': 160000}
 CHUNK = 12
 RECHECK_MOD = 101
-PROBES = ['window_without_any_context', 'dropped_prefix_inside_window', 'dropped_lookup', 'dropped_string_definition',
+PROBES = ['long_unfinished_window', 'window_without_any_context', 'dropped_prefix_inside_window', 'dropped_lookup', 'dropped_string_definition',
           'dropped_data_before_string', 'killed_after_start', 'reentered_start', 'undecoded_nested_record',
           'single_record_delivery', 'formatted_v2_run', 'colour_run', 'every_decoder_family']
 RULE = ('one run = one focus decoder (run index mod number of decodable names, so every decoder is the focus equally '
@@ -30,6 +30,7 @@ ASSUMPTIONS = ['in-domain = the enum members the live decoder names (simkd/domai
                'an enum ValueError / UnicodeDecodeError is a generator bug (premise rejected, exit 2), never a violation']
 
 
+COMPOSITES = ('MACH_vmfault', 'DBG_DYLD_TIMING_LAUNCH_EXECUTABLE', 'PERF_Event')
 NESTED_KINDS = {'MACH_vmfault': ['RealFaultAddressInternal'], 'PERF_Event': ['PERF_THD_Data', 'PERF_STK_UHdr'],
                 'DBG_DYLD_TIMING_LAUNCH_EXECUTABLE': ['DYLD_uuid_map_a']}
 
@@ -71,6 +72,15 @@ def focus_list():
 
 
 def generate(rng, index, tier):
+    if index % 991 == 5:
+        # an operation whose END was lost, thousands of later records of that thread, then the thread starts another one
+        n = worlds.LONG_SIZES[(index // 991) % len(worlds.LONG_SIZES)]
+        ctx = worlds.Ctx(0, 300)
+        first = worlds.op_long_window(rng, 'BSC_read', n)
+        first['noend'] = rng.chance(0.7)
+        ops = [first] + worlds.gen_ops(rng, ctx, 3, {'bsd': 2, 'path': 1, 'mach': 1}, depth=1)
+        return {'threads': [{'tid': 300, 'ops': _ascii(ops)}], 'schedule': [], 'focus': 'BSC_read', 'double_seed': 1, 'colour': False,
+                't0': 0x123411, 'long': n}
     cat = worlds.catalog()
     names = focus_list()
     name = names[index % len(names)]
@@ -98,7 +108,13 @@ def generate(rng, index, tier):
             if rng.chance(0.3):
                 s, e = domains.draw(rng, 'INTERRUPT')
                 nested.append({'k': 'sys', 'name': 'INTERRUPT', 's': s, 'e': e, 'in': []})
-            if name in worlds.SPECIAL:
+            if name in COMPOSITES and rng.chance(0.6):
+                # the composite's own world: nested records of its kinds in any order/multiplicity (equal load addresses,
+                # several real-fault records, header/data mismatches), see props/c20.py
+                from . import c20
+                focus = [{'MACH_vmfault': c20._fault, 'DBG_DYLD_TIMING_LAUNCH_EXECUTABLE': c20._launch,
+                          'PERF_Event': lambda r: c20._sample(r, tid)}[name](rng)]
+            elif name in worlds.SPECIAL:
                 focus = _special(rng, name, ctx)
             elif form < 0.2:
                 focus = [{'k': 'one', 'name': name, 'q': rng.pick([0, 3]), 'a': domains.draw_single(rng, name)}]
@@ -220,6 +236,14 @@ def execute(scn):
         return False
     n = len(stream)
     judge(stream, 'fault-free', 'no fault')
+    if scn.get('long'):
+        # the enumeration below is quadratic in the stream length: a long stream gets the fault-free run and a few cuts only
+        bump('probe:long_unfinished_window')
+        for d in (1, n // 2, n - 3):
+            bump('fault:ring_wrap')
+            judge(stream[d:], 'wrap %d' % d, 'first %d records lost' % d)
+        return {'violations': viols[:6], 'digest': digest_of(scn, hist), 'stats': stats, 'nontrivial': True,
+                'shape': 'long', 'extent': {'records_delivered': 4 * n, 'fault_variants': 4}}
     focus_id = worlds.catalog()['ids'].get(focus)
     nontrivial = False
     # open-window bookkeeping for probes
